@@ -32,6 +32,15 @@ MODELLED = {'bytes_to_int', 'int_to_bytes', 'uint_to_bytes', 'bytes_to_bool', 'b
             'remove_signature_extension', 'reset_signature_extensions', 'run_sig_extensions', 'set_tape_flags',
             'run_tape', 'run_script', 'run_auth_scripts', 'run_auth_script'}
 API_PREFIXES = ('add_', 'remove_', 'reset_')
+# parsing.py: the functions the compiler / decompiler rules know by name
+MODELLED_PARSING = {'is_hex', 'get_symbols', 'define_macro', 'invoke_macro', 'set_variable', 'load_variable',
+                    'size_variable', 'add_opcode_parsing_handlers', '_get_additional_opcode_args', '_get_OP_PUSH_args',
+                    '_get_OP_WRITE_CACHE_args', '_get_OP_PUSH0_type_args', '_get_OP_PUSH1_type_args',
+                    '_get_OP_PUSH2_args', '_get_OP_DIV_FLOAT_args', '_get_OP_SWAP_type_args',
+                    '_get_OP_CHECK_MULTISIG_args', '_get_OP_MERKLEVAL_args', '_get_nopcode_args', 'get_args',
+                    'parse_def', 'parse_if', 'parse_else', 'parse_try', 'parse_except', 'parse_loop', 'parse_next',
+                    '_find_matching_brace', 'compile_script', 'parse_comptime', 'assemble', 'decompile_script'}
+KNOWN = {'functions': MODELLED, 'parsing': MODELLED_PARSING, 'classes': set()}
 PRIMITIVE_METHODS = {
     'Tape': {'read', 'move_pointer', 'reset_pointer', 'reset', 'has_terminated', 'remaining', '__init__',
              '__post_init__'},
@@ -127,13 +136,52 @@ class Inliner:
         if fm is None or cm is None:
             return self.notes
         self._discover(fm, cm)
-        if not self.fn_helpers and not self.method_helpers:
+        self.module_helpers = {'functions': dict(self.fn_helpers)}
+        for mn in ('classes', 'parsing'):
+            m = self.modules.get(mn)
+            if m is not None:
+                self.module_helpers[mn] = self._discover_module(m, KNOWN[mn])
+        if not any(self.module_helpers.values()) and not self.method_helpers:
             return self.notes
-        for m in (fm, cm):
+        for mn in ('functions', 'classes', 'parsing'):
+            m = self.modules.get(mn)
+            if m is None:
+                continue
+            self.fn_helpers = self.module_helpers.get(mn, {})
             for fn in self._all_defs(m.tree):
                 self._inline_into(fn, m, chain=(fn.name,))
+            self._remove_unreferenced_in(m, self.fn_helpers)
+        self.fn_helpers = self.module_helpers.get('functions', {})
         self._remove_unreferenced(fm, cm)
         return self.notes
+
+    def _discover_module(self, m, known: set) -> dict:
+        """New module-level helper functions of a module: not known to the rules by name, not referenced from a
+        module-level table, and called from inside the module."""
+        table_refs = set()
+        for st in m.tree.body:
+            if not isinstance(st, (ast.FunctionDef, ast.ClassDef, ast.Import, ast.ImportFrom)):
+                for n in ast.walk(st):
+                    if isinstance(n, ast.Name):
+                        table_refs.add(n.id)
+        defs = {st.name: st for st in m.tree.body if isinstance(st, ast.FunctionDef)}
+        called = {n.func.id for n in ast.walk(m.tree) if isinstance(n, ast.Call) and isinstance(n.func, ast.Name)}
+        return {name: fn for name, fn in defs.items()
+                if name not in known and name not in table_refs and name in called and not name.startswith(API_PREFIXES)}
+
+    def _remove_unreferenced_in(self, m, helpers: dict):
+        used = set()
+        for mod in self.modules.values():
+            for n in ast.walk(mod.tree):
+                if isinstance(n, ast.Name):
+                    used.add(n.id)
+                elif isinstance(n, ast.alias):
+                    used.add(n.name)
+        inlined = {x.split(' into ')[0] for x in self.notes['inlined']}
+        for name, fn in helpers.items():
+            if name in inlined and name not in used and fn in m.tree.body:
+                m.tree.body.remove(fn)
+                self.notes['removed'].append(name)
 
     @staticmethod
     def _all_defs(tree):
@@ -622,15 +670,108 @@ class _CanonAug(ast.NodeTransformer):
         return ast.copy_location(new, n)
 
 
+class _NoConst(Exception):
+    pass
+
+
+def _safe_eval(e: ast.AST, env: dict):
+    """Value of a small constant expression: literals, tuples, int arithmetic, f-strings over loop variables,
+    tuple(...)/range(...) and one-generator comprehensions.  Raises _NoConst for anything else."""
+    if isinstance(e, ast.Constant) and type(e.value) in (int, str, bytes, bool):
+        return e.value
+    if isinstance(e, ast.Name) and e.id in env:
+        return env[e.id]
+    if isinstance(e, ast.Tuple):
+        return tuple(_safe_eval(x, env) for x in e.elts)
+    if isinstance(e, ast.UnaryOp) and isinstance(e.op, ast.USub):
+        v = _safe_eval(e.operand, env)
+        if isinstance(v, int):
+            return -v
+        raise _NoConst()
+    if isinstance(e, ast.BinOp):
+        a, b = _safe_eval(e.left, env), _safe_eval(e.right, env)
+        if isinstance(a, int) and isinstance(b, int) and not isinstance(a, bool):
+            ops = {ast.Add: lambda: a + b, ast.Sub: lambda: a - b, ast.Mult: lambda: a * b,
+                   ast.LShift: lambda: a << b if 0 <= b < 64 else None, ast.RShift: lambda: a >> b if 0 <= b < 64 else None,
+                   ast.BitAnd: lambda: a & b, ast.BitOr: lambda: a | b,
+                   ast.Pow: lambda: a ** b if 0 <= b < 64 and abs(a) < 1 << 16 else None}
+            for k, f in ops.items():
+                if isinstance(e.op, k):
+                    r = f()
+                    if r is not None:
+                        return r
+        if isinstance(a, (str, bytes)) and type(a) is type(b) and isinstance(e.op, ast.Add):
+            return a + b
+        raise _NoConst()
+    if isinstance(e, ast.JoinedStr):
+        out = ''
+        for v in e.values:
+            if isinstance(v, ast.Constant) and isinstance(v.value, str):
+                out += v.value
+            elif isinstance(v, ast.FormattedValue) and v.format_spec is None and v.conversion == -1:
+                x = _safe_eval(v.value, env)
+                if type(x) not in (int, str):
+                    raise _NoConst()
+                out += str(x)
+            else:
+                raise _NoConst()
+        return out
+    if isinstance(e, ast.Call) and isinstance(e.func, ast.Name) and not e.keywords:
+        if e.func.id == 'range' and 1 <= len(e.args) <= 3:
+            vals = [_safe_eval(a, env) for a in e.args]
+            if all(isinstance(v, int) for v in vals):
+                r = range(*vals)
+                if len(r) <= 512:
+                    return tuple(r)
+            raise _NoConst()
+        if e.func.id == 'tuple' and len(e.args) == 1:
+            v = _safe_eval(e.args[0], env)
+            if isinstance(v, tuple):
+                return v
+            raise _NoConst()
+    if isinstance(e, (ast.GeneratorExp, ast.ListComp)) and len(e.generators) == 1:
+        g = e.generators[0]
+        if g.is_async:
+            raise _NoConst()
+        seq = _safe_eval(g.iter, env)
+        if not isinstance(seq, tuple):
+            raise _NoConst()
+        out = []
+        for item in seq:
+            env2 = dict(env)
+            if isinstance(g.target, ast.Name):
+                env2[g.target.id] = item
+            elif isinstance(g.target, ast.Tuple) and isinstance(item, tuple) and len(item) == len(g.target.elts) and \
+                    all(isinstance(t, ast.Name) for t in g.target.elts):
+                for t, v in zip(g.target.elts, item):
+                    env2[t.id] = v
+            else:
+                raise _NoConst()
+            keep = True
+            for c in g.ifs:
+                cv = _safe_eval(c, env2)
+                keep = keep and bool(cv)
+            if keep:
+                out.append(_safe_eval(e.elt, env2))
+        return tuple(out)
+    raise _NoConst()
+
+
+def _to_ast(v):
+    if isinstance(v, tuple):
+        return ast.Tuple(elts=[_to_ast(x) for x in v], ctx=ast.Load())
+    return ast.Constant(value=v)
+
+
 def _propagate_constants(modules: dict) -> int:
     """A module-level `NAME = <int | bytes | str literal>` that is bound exactly once and never declared
     `global` is a named constant: its uses inside functions (of the same module, or of a module that imports
     it with `from .mod import NAME`) are read as the literal.  Makes the rules indifferent to "give the magic
     number a name" refactors.  Identity on a tree without such constants."""
-    consts: dict[str, dict[str, ast.Constant]] = {}
+    consts: dict[str, dict[str, ast.AST]] = {}
     for mn, m in modules.items():
         counts: dict[str, int] = {}
-        vals: dict[str, ast.Constant] = {}
+        vals: dict[str, ast.AST] = {}
         for st in m.tree.body:
             tg = None
             if isinstance(st, ast.Assign) and len(st.targets) == 1 and isinstance(st.targets[0], ast.Name):
@@ -642,12 +783,40 @@ def _propagate_constants(modules: dict) -> int:
             counts[tg] = counts.get(tg, 0) + 1
             if isinstance(v, ast.Constant) and type(v.value) in (int, bytes, str):
                 vals[tg] = v
+            elif isinstance(v, (ast.Tuple, ast.Call, ast.GeneratorExp)):
+                # an immutable constant table: a tuple (of tuples) of scalars, written out or generated
+                try:
+                    val = _safe_eval(v, {})
+                    if isinstance(val, tuple) and val and not (isinstance(v, ast.Tuple) and not v.elts):
+                        vals[tg] = _to_ast(val)
+                except (_NoConst, RecursionError, OverflowError, ValueError):
+                    pass
         rebound = set()
         for n in ast.walk(m.tree):
             if isinstance(n, ast.Global):
                 rebound |= set(n.names)
             if isinstance(n, (ast.AugAssign,)) and isinstance(n.target, ast.Name):
                 rebound.add(n.target.id)
+        # a tuple is read as a *table* only when every use is an iteration, an index, a length or a membership
+        # test (a tuple used as a value - a sentinel key, an argument - keeps its name)
+        table_like = {k for k, v in vals.items() if isinstance(v, ast.Tuple)}
+        if table_like:
+            parent = {}
+            for n in ast.walk(m.tree):
+                for ch in ast.iter_child_nodes(n):
+                    parent[id(ch)] = n
+            for n in ast.walk(m.tree):
+                if isinstance(n, ast.Name) and isinstance(n.ctx, ast.Load) and n.id in table_like:
+                    p = parent.get(id(n))
+                    ok = (isinstance(p, (ast.For, ast.comprehension)) and p.iter is n) or \
+                        (isinstance(p, ast.Subscript) and p.value is n) or \
+                        (isinstance(p, ast.Compare) and n in p.comparators and
+                         all(isinstance(o, (ast.In, ast.NotIn)) for o in p.ops)) or \
+                        (isinstance(p, ast.Call) and isinstance(p.func, ast.Name) and p.func.id in ('len', 'enumerate', 'reversed')
+                         and n in p.args)
+                    if not ok:
+                        table_like.discard(n.id)
+                        vals.pop(n.id, None)
         consts[mn] = {k: v for k, v in vals.items() if counts.get(k) == 1 and k not in rebound}
     done = 0
     for mn, m in modules.items():
@@ -677,20 +846,268 @@ def _propagate_constants(modules: dict) -> int:
                     nonlocal done
                     if isinstance(x.ctx, ast.Load) and x.id in names:
                         done += 1
-                        return ast.copy_location(ast.Constant(value=visible[x.id].value), x)
+                        import copy as _copy
+                        return ast.copy_location(_copy.deepcopy(visible[x.id]), x)
                     return x
             fn.body = [Sub().visit(b) for b in fn.body]
     return done
 
 
+_PURE_CALLS = {'len', 'type', 'isinstance', 'bool', 'int', 'callable', 'abs'}
+
+
+def _pure_cond(e: ast.AST) -> bool:
+    for n in ast.walk(e):
+        if isinstance(n, ast.Call):
+            if not (isinstance(n.func, ast.Name) and n.func.id in _PURE_CALLS and not n.keywords):
+                return False
+        elif isinstance(n, (ast.Await, ast.Yield, ast.YieldFrom, ast.NamedExpr, ast.Lambda, ast.ListComp, ast.SetComp,
+                            ast.DictComp, ast.GeneratorExp)):
+            return False
+    return True
+
+
+def _positive(test: ast.AST):
+    """(test', swapped): the test with `not`, `!=`, `is not`, `not in` removed by swapping the branches."""
+    swapped = False
+    while True:
+        if isinstance(test, ast.UnaryOp) and isinstance(test.op, ast.Not):
+            test, swapped = test.operand, not swapped
+            continue
+        if isinstance(test, ast.Compare) and len(test.ops) == 1 and isinstance(test.ops[0], (ast.NotEq, ast.IsNot, ast.NotIn)):
+            pos = {ast.NotEq: ast.Eq, ast.IsNot: ast.Is, ast.NotIn: ast.In}[type(test.ops[0])]
+            test = ast.copy_location(ast.Compare(left=test.left, ops=[pos()], comparators=test.comparators), test)
+            swapped = not swapped
+            continue
+        return test, swapped
+
+
+class _CondAssign(ast.NodeTransformer):
+    """`if c: x = B` (only assignments to plain names in the branches, c side-effect free and not disturbed by
+    them) is read as the conditional expression `x = B if c else x` - the two spellings of a conditional
+    value become one.  Conditional expressions are also put in positive polarity (`A if c else B` rather than
+    `B if not c else A`)."""
+
+    def __init__(self):
+        self.count = 0
+
+    def visit_IfExp(self, n: ast.IfExp):
+        self.generic_visit(n)
+        t, sw = _positive(n.test)
+        if sw:
+            return ast.copy_location(ast.IfExp(test=t, body=n.orelse, orelse=n.body), n)
+        return n
+
+    def _simple(self, stmts):
+        out = []
+        for s in stmts:
+            if isinstance(s, ast.Assign) and len(s.targets) == 1 and isinstance(s.targets[0], ast.Name):
+                out.append((s.targets[0].id, s.value, s))
+            elif isinstance(s, ast.Pass):
+                continue
+            else:
+                return None
+        return out
+
+    def visit_If(self, n: ast.If):
+        self.generic_visit(n)
+        if not n.body:
+            return n
+        a, b = self._simple(n.body), self._simple(n.orelse)
+        if a is None or b is None or not (a or b) or not _pure_cond(n.test):
+            return n
+        # an `elif` chain stays a chain
+        if len(n.orelse) == 1 and isinstance(n.orelse[0], ast.If):
+            return n
+        names_a, names_b = [x[0] for x in a], [x[0] for x in b]
+        if len(set(names_a)) != len(names_a) or len(set(names_b)) != len(names_b):
+            return n
+        cond_names = {x.id for x in ast.walk(n.test) if isinstance(x, ast.Name)}
+        order = names_a + [x for x in names_b if x not in names_a]
+        # the condition is evaluated once per assigned name: it must not read a name assigned before the last one
+        if cond_names & set(order[:-1]):
+            return n
+        # a value may read names assigned earlier in the *other* branch's order only consistently: keep it simple
+        va, vb = {k: v for k, v, _ in a}, {k: v for k, v, _ in b}
+        test, swapped = _positive(n.test)
+        out = []
+        import copy as _copy
+        for nm in order:
+            x = va.get(nm, ast.Name(id=nm, ctx=ast.Load()))
+            y = vb.get(nm, ast.Name(id=nm, ctx=ast.Load()))
+            body, orelse = (y, x) if swapped else (x, y)
+            asg = ast.Assign(targets=[ast.Name(id=nm, ctx=ast.Store())],
+                             value=ast.IfExp(test=_copy.deepcopy(test), body=body, orelse=orelse))
+            asg.tsa_cond = True
+            out.append(ast.copy_location(asg, n))
+        for x in out:
+            ast.fix_missing_locations(x)
+        self.count += 1
+        return out
+
+
+class _IfExpToIf(ast.NodeTransformer):
+    """tools.py builders: `x = A if c else B` is read as `if c: x = A else: x = B` (the template extractor
+    follows if statements per branch)."""
+
+    def __init__(self):
+        self.count = 0
+
+    def visit_Assign(self, n: ast.Assign):
+        if len(n.targets) == 1 and isinstance(n.targets[0], ast.Name) and isinstance(n.value, ast.IfExp) and \
+                _pure_cond(n.value.test):
+            import copy as _copy
+            a = ast.Assign(targets=[_copy.deepcopy(n.targets[0])], value=n.value.body)
+            b = ast.Assign(targets=[_copy.deepcopy(n.targets[0])], value=n.value.orelse)
+            new = ast.If(test=n.value.test, body=[ast.copy_location(a, n)], orelse=[ast.copy_location(b, n)])
+            self.count += 1
+            return ast.fix_missing_locations(ast.copy_location(new, n))
+        return n
+
+
+def _expand_table_arms(modules: dict) -> int:
+    """`case _ if subject in TABLE:` (or `case name if name in TABLE:`) with TABLE a module-level dict literal of
+    constant keys and values that nothing mutates is the table-driven spelling of explicit arms: it is expanded
+    into one `case 'K1' | 'K2' ...:` arm per distinct value, with `TABLE[subject]` replaced by that value."""
+    import copy as _copy
+    done = 0
+    for mn, m in modules.items():
+        tables = {}
+        for st in m.tree.body:
+            tg, v = None, None
+            if isinstance(st, ast.Assign) and len(st.targets) == 1 and isinstance(st.targets[0], ast.Name):
+                tg, v = st.targets[0].id, st.value
+            elif isinstance(st, ast.AnnAssign) and isinstance(st.target, ast.Name) and st.value is not None:
+                tg, v = st.target.id, st.value
+            if tg and isinstance(v, ast.Dict) and v.keys and all(isinstance(k, ast.Constant) and isinstance(k.value, str) for k in v.keys) \
+                    and all(isinstance(x, ast.Constant) for x in v.values):
+                tables[tg] = [(k.value, x.value) for k, x in zip(v.keys, v.values)]
+        if not tables:
+            continue
+        # mutated anywhere in the package?  then it is not a constant table
+        for mod in modules.values():
+            for n in ast.walk(mod.tree):
+                base = None
+                if isinstance(n, ast.Subscript) and isinstance(n.ctx, (ast.Store, ast.Del)) and isinstance(n.value, ast.Name):
+                    base = n.value.id
+                if isinstance(n, ast.Call) and isinstance(n.func, ast.Attribute) and isinstance(n.func.value, ast.Name) and \
+                        n.func.attr in ('update', 'pop', 'popitem', 'clear', 'setdefault', '__setitem__', '__delitem__'):
+                    base = n.func.value.id
+                if isinstance(n, ast.Global):
+                    for g in n.names:
+                        tables.pop(g, None)
+                if base:
+                    tables.pop(base, None)
+        if not tables:
+            continue
+        for mt in [x for x in ast.walk(m.tree) if isinstance(x, ast.Match)]:
+            subj = mt.subject
+            new_cases = []
+            for c in mt.cases:
+                pat, g = c.pattern, c.guard
+                cap = None
+                if isinstance(pat, ast.MatchAs) and pat.pattern is None:
+                    cap = pat.name          # None for `_`
+                else:
+                    new_cases.append(c)
+                    continue
+                tname, lhs_ok = None, False
+                if isinstance(g, ast.Compare) and len(g.ops) == 1 and isinstance(g.ops[0], ast.In) and \
+                        isinstance(g.comparators[0], ast.Name) and g.comparators[0].id in tables:
+                    tname = g.comparators[0].id
+                    lhs = g.left
+                    lhs_ok = (isinstance(lhs, ast.Name) and cap is not None and lhs.id == cap) or \
+                        (ast.dump(lhs) == ast.dump(subj))
+                if not (tname and lhs_ok):
+                    new_cases.append(c)
+                    continue
+                by_val = {}
+                for k, v in tables[tname]:
+                    by_val.setdefault(repr(v), (v, []))[1].append(k)
+                for _, (v, keys) in by_val.items():
+                    pats = [ast.MatchValue(value=ast.Constant(value=k)) for k in keys]
+                    p2 = pats[0] if len(pats) == 1 else ast.MatchOr(patterns=pats)
+                    if cap is not None:
+                        p2 = ast.MatchAs(pattern=p2, name=cap)
+
+                    class Sub(ast.NodeTransformer):
+                        def visit_Subscript(self, n):
+                            self.generic_visit(n)
+                            if isinstance(n.value, ast.Name) and n.value.id == tname and isinstance(n.ctx, ast.Load) and \
+                                    ((isinstance(n.slice, ast.Name) and cap is not None and n.slice.id == cap) or
+                                     ast.dump(n.slice) == ast.dump(subj)):
+                                return ast.copy_location(ast.Constant(value=v), n)
+                            return n
+                    body = [Sub().visit(_copy.deepcopy(b)) for b in c.body]
+                    nc = ast.match_case(pattern=p2, guard=None, body=body)
+                    ast.copy_location(p2, pat)
+                    for x in ast.walk(p2):
+                        ast.copy_location(x, pat)
+                    new_cases.append(nc)
+                done += 1
+            mt.cases = new_cases
+            ast.fix_missing_locations(mt)
+    return done
+
+
+def _fold_defaults(node: ast.AST):
+    """`x = <literal>` directly followed by `x = B if c else x` (or `x if c else B`): the name in the conditional
+    is the literal."""
+    for n in ast.walk(node):
+        for fld in ('body', 'orelse', 'finalbody'):
+            stmts = getattr(n, fld, None)
+            if not (isinstance(stmts, list) and stmts and isinstance(stmts[0], ast.stmt)):
+                continue
+            last_const = {}
+            for st in stmts:
+                if isinstance(st, ast.Assign) and len(st.targets) == 1 and isinstance(st.targets[0], ast.Name):
+                    nm = st.targets[0].id
+                    v = st.value
+                    if isinstance(v, ast.IfExp) and nm in last_const and getattr(st, 'tsa_cond', False):
+                        c = last_const[nm]
+                        if isinstance(v.body, ast.Name) and v.body.id == nm:
+                            v.body = ast.copy_location(ast.Constant(value=c.value), v.body)
+                        if isinstance(v.orelse, ast.Name) and v.orelse.id == nm:
+                            v.orelse = ast.copy_location(ast.Constant(value=c.value), v.orelse)
+                    last_const = {k: c for k, c in last_const.items()
+                                  if k != nm and not any(isinstance(x, ast.Name) and x.id == k and isinstance(x.ctx, ast.Store)
+                                                         for x in ast.walk(st))}
+                    if isinstance(v, ast.Constant):
+                        last_const[nm] = v
+                else:
+                    last_const = {}
+
+
 def normalise(modules: dict) -> dict:
+    ntab = _expand_table_arms(modules)
     nconst = _propagate_constants(modules)
     n = 0
-    for m in modules.values():
+    ncond = 0
+    for mn, m in modules.items():
+        c0 = _CanonAug()            # first: `x = x + e` is an accumulation, not a conditional value
+        c0.visit(m.tree)
+        n += c0.count
+        if mn in ('functions', 'classes'):
+            ca = _CondAssign()
+            for fn in [x for x in ast.walk(m.tree) if isinstance(x, ast.FunctionDef)]:
+                fn.body = [y for b in fn.body for y in (lambda r: r if isinstance(r, list) else [r])(ca.visit(b))]
+                _fold_defaults(fn)
+            ncond += ca.count
+        if mn == 'tools':
+            ie = _IfExpToIf()
+            for fn in [x for x in ast.walk(m.tree) if isinstance(x, ast.FunctionDef)]:
+                # only string-valued choices matter; leave everything else alone
+                for i, b in enumerate(list(fn.body)):
+                    if isinstance(b, ast.Assign) and isinstance(b.value, ast.IfExp) and \
+                            all(isinstance(x, (ast.Constant, ast.JoinedStr)) for x in (b.value.body, b.value.orelse)):
+                        fn.body[i] = ie.visit_Assign(b)
+            ncond += ie.count
         c = _CanonAug()
         c.visit(m.tree)
         n += c.count
     notes = Inliner(modules).run()
     notes['aug_canonicalised'] = n
     notes['constants_propagated'] = nconst
+    notes['conditional_assignments'] = ncond
+    notes['table_arms_expanded'] = ntab
     return notes
